@@ -4,7 +4,10 @@ Correspondence: real `UrwidImage(...).render(size)` canvases (Block / Kitty / IT
 box and flow sizes, 9 alignments + the defaults, upscale on/off, alpha settings) asked for
 sub-rectangles through `content(trim_left, trim_top, cols, rows)` directly and through
 urwid's own CompositeCanvas trimming: EVERY sub-rectangle of small canvases (<= 8x6), random
-ones of larger canvases.  Inside Coq (model/TrimTie.v) the yielded rows are compared with
+ones of larger canvases.  A case is a HISTORY: one widget (or two widgets sharing one image
+object) rendered several times at different sizes, with the requests made on EARLIER canvases
+in between and afterwards — a canvas is a snapshot: every request is judged against the
+lines / image size / untrimmed rows captured when that canvas was built.  Inside Coq (model/TrimTie.v) the yielded rows are compared with
 Trim.content_text / Trim.content_gfx run on the canvas's own lines (which are also checked to
 have the shape the theorems quantify over), and — specification side, on the
 implementation's own output — with the crop of what the untrimmed canvas shows
@@ -110,6 +113,115 @@ def corpus():
     return cs
 
 
+IMAGE_KEYS = ("style", "img", "term_bg", "on_kitty", "term", "via", "max_exh", "n_random", "rseed")
+WIDGET_KEYS = ("ha", "va", "alpha", "style_spec", "upscale", "spec")
+
+
+def to_history(c, steps=None):
+    """A flat single-canvas case as a history: one widget, render, then every trim."""
+    h = {k: c[k] for k in IMAGE_KEYS if k in c}
+    cs, ws = c.get("disguise", [0, 0])
+    h["cstate"] = cs
+    w = {k: c[k] for k in WIDGET_KEYS if k in c}
+    w["wstate"] = ws
+    h["widgets"] = [w]
+    h["cache"] = False
+    h["steps"] = steps or [["render", 0, list(c["size"])], ["trim", 0, c.get("trims", "all")]]
+    return h
+
+
+def gen_size(rng, large):
+    if large:
+        W, H = rng.randint(9, 30), rng.randint(5, 15)
+    else:
+        W, H = rng.randint(1, MAX_EXH[0]), rng.randint(1, MAX_EXH[1])
+    return [W] if rng.random() < 0.3 else [W, H]
+
+
+def gen_history(rng, large=False):
+    """Several renders of one widget — or of two widgets sharing the image — at different sizes,
+    requests on earlier canvases in between and afterwards."""
+    c = gen_case(rng, large)
+    if c["style"] == "block" and not large:  # images that often need fitting, so the image size varies
+        c["img"]["size"] = [rng.randint(3, 10), rng.randint(4, 14)]
+    h = to_history(c)
+    if rng.random() < 0.5:  # a second widget sharing the image object
+        w2 = dict(h["widgets"][0])
+        w2.update(ha=rng.choice([0, 1, 2, None]), va=rng.choice([0, 1, 2, None]), upscale=not w2["upscale"],
+                  wstate=rng.randrange(3) if c["style"] != "block" else 0)
+        w2["spec"] = fmt_spec(w2)
+        h["widgets"].append(w2)
+    h["cache"] = rng.random() < 0.3
+    nw = len(h["widgets"])
+    n = rng.choice([2, 2, 3])
+    sizes = []
+    while len(sizes) < n:
+        sz = gen_size(rng, large)
+        if sz not in sizes:
+            sizes.append(sz)
+    R = [["render", rng.randrange(nw), sz] for sz in sizes]
+    T = lambda k: ["trim", k, "all"]
+    if n == 2:
+        steps = rng.choice([[R[0], R[1], T(0), T(1)], [R[0], T(0), R[1], T(0), T(1)], [R[0], R[1], T(1), T(0)]])
+    else:
+        steps = rng.choice([[R[0], R[1], T(0), T(1), R[2], T(0), T(2)], [R[0], R[1], R[2], T(0), T(1), T(2)],
+                            [R[0], T(0), R[1], R[2], T(1), T(0)]])
+    h["steps"] = steps
+    return h
+
+
+def corpus_histories():
+    cs = []
+    base = {"style": "block", "img": {"mode": "RGBA", "size": [6, 8], "seed": 11, "kind": "runs"}, "alpha": "",
+            "upscale": False, "via": "content", "max_exh": list(MAX_EXH), "n_random": 60, "rseed": 5, "ha": 1, "va": 1,
+            "size": [8, 5]}
+    base["spec"] = fmt_spec(base)
+    # the same widget: rendered wide, then narrower (the image has to shrink), the FIRST canvas trimmed afterwards
+    cs.append(to_history(base, [["render", 0, [8, 5]], ["render", 0, [4, 5]], ["trim", 0, "all"], ["trim", 1, "all"]]))
+    # box then flow, interleaved
+    cs.append(to_history(base, [["render", 0, [7, 4]], ["trim", 0, "all"], ["render", 0, [3]], ["trim", 0, "all"],
+                                ["render", 0, [8, 6]], ["trim", 1, "all"], ["trim", 0, "all"]]))
+    # two widgets sharing the image, one upscaling
+    h = to_history(base, [["render", 0, [8, 6]], ["render", 1, [5, 3]], ["trim", 0, "all"], ["trim", 1, "all"]])
+    w2 = dict(h["widgets"][0]); w2.update(ha=0, va=2, upscale=True); w2["spec"] = fmt_spec(w2)
+    h["widgets"].append(w2)
+    cs.append(h)
+    # with urwid's canvas cache on: the same size again returns the cached canvas
+    h = to_history(base, [["render", 0, [8, 4]], ["render", 0, [5, 4]], ["render", 0, [8, 4]], ["trim", 0, "all"],
+                          ["trim", 2, "all"], ["trim", 1, "all"]])
+    h["cache"] = True
+    cs.append(h)
+    # graphics
+    g = {"style": "kitty", "img": {"mode": "RGB", "size": [60, 90], "seed": 3, "kind": "runs"}, "alpha": "", "style_spec": "+L",
+         "term": "", "disguise": [1, 1], "upscale": False, "ha": 1, "va": 1, "via": "content", "max_exh": list(MAX_EXH),
+         "n_random": 60, "rseed": 2, "size": [7, 6]}
+    g["spec"] = fmt_spec(g)
+    cs.append(to_history(g, [["render", 0, [7, 6]], ["render", 0, [4, 6]], ["trim", 0, "all"], ["trim", 1, "all"]]))
+    return cs
+
+
+def view(h, rec):
+    """The flat description of one canvas of a history (for encoding / statistics / reports)."""
+    w = h["widgets"][rec["widget"]]
+    c = {k: h[k] for k in IMAGE_KEYS if k in h}
+    c.update({k: w[k] for k in WIDGET_KEYS if k in w})
+    c["disguise"] = [h.get("cstate", 0), w.get("wstate", 0)]
+    c["size"] = rec["req"]
+    return c
+
+
+def describe_history(h, res=None):
+    c = view(h, {"widget": 0, "req": []})
+    s = (f"{h['style']} img={h['img']['mode']}{h['img']['size']}/{h['img'].get('kind')}#{h['img']['seed']} "
+         f"widgets={[(w['spec'], 'upscale' if w['upscale'] else 'no-upscale') for w in h['widgets']]} via={h.get('via')} "
+         f"term={h.get('term', '')!r} on_kitty={h.get('on_kitty', False)} term_bg={h.get('term_bg')} "
+         f"disguise={c['disguise']} cache={h.get('cache', False)} steps={h['steps']}")
+    if res and "canvases" in res:
+        s += " -> canvases " + ", ".join(f"{tuple(r['size'])}/image{tuple(r['image_size'])}/{len(r['obs'])} requests"
+                                          for r in res["canvases"])
+    return s
+
+
 # ----------------------------------------------------------------------------- encoding
 
 def oz(x):
@@ -202,6 +314,8 @@ def python_oracle(c, r):
             why.append(f"flow widget: canvas is {W} columns wide for maxcol={c['size'][0]}")
     elif [W, H] != list(c["size"]):
         why.append(f"box widget: canvas size {(W, H)} != requested {tuple(c['size'])}")
+    if not r.get("full_later_same", True):
+        why.append("the untrimmed content() of a canvas changed after later renders of its widget / image")
     if r["fd"] < 0 or any(o[4] < 0 for o in r["obs"]):
         why.append("rows of one content() call carry different numbers of disguise pairs")
     if not r["text"]:
@@ -215,33 +329,40 @@ def python_oracle(c, r):
     return why
 
 
-def evaluate(cases, tag):
-    """Returns per case: (code, reason list, impl result); plus infrastructure errors."""
-    impl = core.run_impl_parallel("impl_c17.py", cases, chunk=max(40, (len(cases) + core.NCPU - 1) // core.NCPU))
+def evaluate(hs, tag):
+    """Per history: [code, reasons, impl result, per-canvas codes]; plus infrastructure errors."""
+    impl = core.run_impl_parallel("impl_c17.py", hs, chunk=max(30, (len(hs) + core.NCPU - 1) // core.NCPU))
     terms, owner = [], []
-    out = [[0, [], r] for r in impl]
-    for i, (c, r) in enumerate(zip(cases, impl)):
+    out = [[0, [], r, []] for r in impl]
+    for i, (h, r) in enumerate(zip(hs, impl)):
         if "error" in r:
             out[i][0] = 2
             out[i][1].append("raised " + r["error"])
             continue
-        try:
-            terms.append(case_term(c, r))
-            owner.append(i)
-        except lexer.LexError as e:
-            out[i][0] = 2
-            out[i][1].append(f"unlexable row: {e}")
-            continue
-        why = python_oracle(c, r)
-        if why:
-            out[i][0] |= 2
-            out[i][1] += why
+        out[i][3] = [0] * len(r["canvases"])
+        for k, rec in enumerate(r["canvases"]):
+            c = view(h, rec)
+            try:
+                terms.append(case_term(c, rec))
+                owner.append((i, k))
+            except lexer.LexError as e:
+                out[i][0] |= 2
+                out[i][3][k] |= 2
+                out[i][1].append(f"canvas {k}: unlexable row: {e}")
+                continue
+            why = python_oracle(c, rec)
+            if why:
+                out[i][0] |= 2
+                out[i][3][k] |= 2
+                out[i][1] += [f"canvas {k} {tuple(rec['size'])}: {x}" for x in why]
     errors = []
     if terms:
         bad, errs = core.coq_shards(tag, HEADER, terms, "tcase", "bad cases", shard=4)
         errors += errs
         for idx, code in bad:
-            out[owner[idx]][0] |= code
+            i, k = owner[idx]
+            out[i][0] |= code
+            out[i][3][k] |= code
     return out, errors
 
 
@@ -259,44 +380,98 @@ def failing_trims(c, r):
     return [(int(a), m == "true", sp == "true") for a, m, sp in re.findall(r"\((\d+)(?:%nat)?, (true|false), (true|false)\)", s)], s
 
 
-def shrink(c, r):
-    """Smallest failing trim, then greedily smaller canvases / images that still fail."""
-    best, best_r = c, r
-    for _ in range(6):
-        fails, _s = failing_trims(best, best_r)
-        specf = [k for k, m, sp in fails if not sp]
-        if not specf:
+def first_failure(h, entry):
+    """(canvas index, failing request [tl, tt, cols, rows], step index) of a failing history, or None."""
+    code, why, r, ccodes = entry
+    if "canvases" not in r:
+        return None
+    for k, cc in enumerate(ccodes):
+        if cc & 2:
+            rec = r["canvases"][k]
+            fails, _s = failing_trims(view(h, rec), rec)
+            specf = [j for j, m, sp in fails if not sp]
+            if not specf:
+                continue
+            obs = rec["obs"]
+            j = min(specf, key=lambda j: ((obs[j][2] or 99) * (obs[j][3] or 99), obs[j][0] + obs[j][1], rec["obs_step"][j]))
+            return k, obs[j][:4], rec["obs_step"][j]
+    return None
+
+
+def drop_render(h, ordinal):
+    """The history without its `ordinal`-th render step (requests on that canvas dropped, later ordinals shifted)."""
+    d = copy.deepcopy(h)
+    steps, n = [], -1
+    for st in h["steps"]:
+        if st[0] == "render":
+            n += 1
+            if n != ordinal:
+                steps.append(st)
+        elif st[1] != ordinal:
+            steps.append(["trim", st[1] - (st[1] > ordinal), st[2]])
+    d["steps"] = steps
+    return d
+
+
+def pinned(h, r, k, trim, si):
+    """Renders up to step `si`, then only the failing request (on the render ordinal of canvas k)."""
+    d = copy.deepcopy(h)
+    ordinal = r["alias"].index(k)
+    d["steps"] = [st for st in h["steps"][:si] if st[0] == "render"] + [["trim", ordinal, [trim]]]
+    return d, ordinal
+
+
+def shrink(h, entry):
+    """Smallest failing request; then fewer steps; then greedily smaller images / sizes that still fail."""
+    ff = first_failure(h, entry)
+    if not ff:
+        return h, None
+    k, trim, si = ff
+    best, ordinal = pinned(h, entry[2], k, trim, si)
+    res, _e = evaluate([best], "c17_shrink")
+    if not (res[0][0] & 2):
+        return h, trim
+    # drop renders that are not needed (one at a time, the failing canvas's own render excluded)
+    changed = True
+    while changed:
+        changed = False
+        n_r = sum(st[0] == "render" for st in best["steps"])
+        cands = [(j, drop_render(best, j)) for j in range(n_r) if j != ordinal]
+        if not cands:
             break
-        obs = best_r["obs"]
-        k = min(specf, key=lambda k: ((obs[k][2] or 99) * (obs[k][3] or 99), obs[k][0] + obs[k][1]))
-        trim = obs[k][:4]
+        res, _e = evaluate([d for _, d in cands], "c17_shrink")
+        for (j, d), e in zip(cands, res):
+            if e[0] & 2:
+                best, ordinal, changed = d, ordinal - (j < ordinal), True
+                break
+    # smaller image / sizes, asking for every request again
+    for _ in range(5):
         cands = []
         iw, ih = best["img"]["size"]
         for dw, dh in ((1, 0), (0, 1), (0, 2)):
-            if iw - dw >= 1 and ih - dh >= 1 and (dw or dh):
-                d = copy.deepcopy(best); d["img"]["size"] = [iw - dw, ih - dh]; d["trims"] = "all"; cands.append(d)
-        for k2 in range(len(best["size"])):
-            if best["size"][k2] > 1:
-                d = copy.deepcopy(best); d["size"][k2] -= 1; d["trims"] = "all"; cands.append(d)
+            if iw - dw >= 1 and ih - dh >= 1:
+                d = copy.deepcopy(best); d["img"]["size"] = [iw - dw, ih - dh]; cands.append(d)
+        for si2, st in enumerate(best["steps"]):
+            if st[0] == "render":
+                for k2 in range(len(st[2])):
+                    if st[2][k2] > 1:
+                        d = copy.deepcopy(best); d["steps"][si2][2][k2] -= 1; cands.append(d)
+        for d in cands:
+            d["steps"][-1][2] = "all"
         found = None
         if cands:
             res, _e = evaluate(cands, "c17_shrink")
-            for d, (code, why, rr) in zip(cands, res):
-                if code & 2 and "size" in rr:
-                    found = (d, rr)
-                    break
+            for d, e in zip(cands, res):
+                if e[0] & 2 and "canvases" in e[2]:
+                    ff = first_failure(d, e)
+                    if ff and e[2]["alias"][d["steps"][-1][1]] == ff[0]:
+                        d["steps"][-1][2] = [ff[1]]
+                        found, trim = d, ff[1]
+                        break
         if not found:
-            final = copy.deepcopy(best)
-            final["trims"] = [trim]
-            return final, trim
-        best, best_r = found
-    fails, _s = failing_trims(best, best_r)
-    specf = [k for k, m, sp in fails if not sp]
-    trim = best_r["obs"][specf[0]][:4] if specf else None
-    final = copy.deepcopy(best)
-    if trim:
-        final["trims"] = [trim]
-    return final, trim
+            break
+        best = found
+    return best, trim
 
 
 def classify(c, r, hist, distinct, ci):
@@ -334,59 +509,96 @@ def classify(c, r, hist, distinct, ci):
 def run(ctx):
     rng = ctx.rng
     if ctx.replay:
-        cases = [ctx.replay["replay"]["case"]]
+        c = ctx.replay["replay"]["case"]
+        hs = [c if "steps" in c else to_history(c)]
     else:
-        n_small, n_large = (34, 10) if ctx.quick else (700, 200)
-        cases = corpus() + [gen_case(rng) for _ in range(n_small)] + [gen_case(rng, large=True) for _ in range(n_large)]
-    res, errors = evaluate(cases, "c17")
+        n_small, n_large, n_hist, n_hist_large = (16, 5, 14, 4) if ctx.quick else (400, 100, 500, 100)
+        hs = ([to_history(c) for c in corpus()] + corpus_histories()
+              + [to_history(gen_case(rng)) for _ in range(n_small)]
+              + [to_history(gen_case(rng, large=True)) for _ in range(n_large)]
+              + [gen_history(rng) for _ in range(n_hist)]
+              + [gen_history(rng, large=True) for _ in range(n_hist_large)])
+    res, errors = evaluate(hs, "c17")
     failures, mismatches = [], []
     hist = {"style": {}, "sizing": {}, "align": {}, "alpha": {}, "via": {}, "upscale": {}, "canvas_cells": {},
             "padded": {"h": 0, "v": 0, "none": 0}, "exhaustive_canvases": 0, "sampled_canvases": 0,
-            "trims": 0, "default_args": 0, "cut": {}}
+            "trims": 0, "default_args": 0, "cut": {},
+            "histories": {"total": len(hs), "renders": {}, "widgets_sharing_image": 0, "canvas_cache_on": 0, "cache_hits": 0},
+            "requests_after_a_later_render": 0, "requests_after_image_size_changed": 0}
     distinct = set()
     n_shrunk = 0
-    for ci, (c, (code, why, r)) in enumerate(zip(cases, res)):
-        hist["style"][c["style"]] = hist["style"].get(c["style"], 0) + 1
-        sk = "flow" if len(c["size"]) == 1 else "box"
-        hist["sizing"][sk] = hist["sizing"].get(sk, 0) + 1
-        ak = f"{'d' if c['ha'] is None else H_CH[c['ha']]}{'d' if c['va'] is None else V_CH[c['va']]}"
-        hist["align"][ak] = hist["align"].get(ak, 0) + 1
-        hist["alpha"][c.get("alpha", "")] = hist["alpha"].get(c.get("alpha", ""), 0) + 1
-        hist["via"][c.get("via", "content")] = hist["via"].get(c.get("via", "content"), 0) + 1
-        hist["upscale"][str(c["upscale"])] = hist["upscale"].get(str(c["upscale"]), 0) + 1
-        if "size" in r:
-            W, H = r["size"]
-            w, h = r["image_size"]
-            hist["trims"] += len(r["obs"])
-            exh = W <= MAX_EXH[0] and H <= MAX_EXH[1] and c["trims"] == "all"
+    ci = 0
+    for hi, (h, entry) in enumerate(zip(hs, res)):
+        code, why, r, ccodes = entry
+        nr = sum(st[0] == "render" for st in h["steps"])
+        hist["histories"]["renders"][str(nr)] = hist["histories"]["renders"].get(str(nr), 0) + 1
+        hist["histories"]["widgets_sharing_image"] += len(h["widgets"]) > 1
+        hist["histories"]["canvas_cache_on"] += bool(h.get("cache"))
+        hist["style"][h["style"]] = hist["style"].get(h["style"], 0) + 1
+        hist["via"][h.get("via", "content")] = hist["via"].get(h.get("via", "content"), 0) + 1
+        for rec in r.get("canvases", []):
+            ci += 1
+            c = view(h, rec)
+            sk = "flow" if len(c["size"]) == 1 else "box"
+            hist["sizing"][sk] = hist["sizing"].get(sk, 0) + 1
+            ak = f"{'d' if c['ha'] is None else H_CH[c['ha']]}{'d' if c['va'] is None else V_CH[c['va']]}"
+            hist["align"][ak] = hist["align"].get(ak, 0) + 1
+            hist["alpha"][c.get("alpha", "")] = hist["alpha"].get(c.get("alpha", ""), 0) + 1
+            hist["upscale"][str(c["upscale"])] = hist["upscale"].get(str(c["upscale"]), 0) + 1
+            W, H = rec["size"]
+            w, hh = rec["image_size"]
+            hist["trims"] += len(rec["obs"])
+            exh = W <= MAX_EXH[0] and H <= MAX_EXH[1]
             hist["exhaustive_canvases" if exh else "sampled_canvases"] += 1
             ck = f"{min(W * H // 10 * 10, 100)}+"
             hist["canvas_cells"][ck] = hist["canvas_cells"].get(ck, 0) + 1
             hist["padded"]["h"] += W > w
-            hist["padded"]["v"] += H > h
-            hist["padded"]["none"] += (W == w and H == h)
-            classify(c, r, hist, distinct, ci)
+            hist["padded"]["v"] += H > hh
+            hist["padded"]["none"] += (W == w and H == hh)
+            classify(c, rec, hist, distinct, ci)
+            # how many requests were made after a later render / after the shared image's size had changed
+            later = [(si, st) for si, st in enumerate(h["steps"]) if st[0] == "render" and si > rec["built_at"]]
+            for si_obs in rec["obs_step"]:
+                before = [si for si, st in later if si < si_obs]
+                if before:
+                    hist["requests_after_a_later_render"] += 1
+                    sizes_then = [x["image_size"] for x in r["canvases"] if rec["built_at"] < x["built_at"] < si_obs]
+                    if sizes_then and sizes_then[-1] != rec["image_size"]:
+                        hist["requests_after_image_size_changed"] += 1
+        if "alias" in r:
+            hist["histories"]["cache_hits"] += len(r["alias"]) - len(set(r["alias"]))
         if code & 2:
-            if "size" in r and not why and not ctx.replay and n_shrunk < 2:
+            trim = None
+            if "canvases" in r and not why and not ctx.replay and n_shrunk < 2:
                 n_shrunk += 1
-                sc, trim = shrink(c, r)
+                sh, trim = shrink(h, entry)
             else:
-                sc = c
-                trim = c["trims"][0] if isinstance(c["trims"], list) and len(c["trims"]) == 1 else None
+                sh = h
+                last = h["steps"][-1]
+                if last[0] == "trim" and isinstance(last[2], list) and len(last[2]) == 1:
+                    trim = last[2][0]
             detail = "; ".join(why) if why else (
-                f"content{tuple(trim) if trim else ''} does not show the corresponding region of the untrimmed canvas "
-                f"(rows / width / colours / end-of-row attributes)")
-            failures.append({"signature": core.sig(["c17", sc["style"], sc["img"], sc["spec"], sc["size"], sc["upscale"], trim,
-                                                    why[:1]]),
-                             "what": f"{detail} — {describe(sc)}", "replay": {"case": sc}})
+                f"content{tuple(trim) if trim else ''} on the canvas of the last request does not show the corresponding region of that "
+                f"canvas's untrimmed rows as they were when it was built (rows / width / colours / end-of-row attributes)")
+            failures.append({"signature": core.sig(["c17", sh["style"], sh["img"], sh["widgets"], sh["steps"], why[:1]]),
+                             "what": f"{detail} — {describe_history(sh)}", "replay": {"case": sh}})
         elif code & 1:
-            mismatches.append({"case": describe(c, r), "code": code,
-                               "explain": explain(c, r)[:600] if len(mismatches) < 3 and "size" in r else ""})
+            k = next((k for k, cc in enumerate(ccodes) if cc & 1), 0)
+            rec = r["canvases"][k] if "canvases" in r else None
+            mismatches.append({"case": describe_history(h, r), "canvas": k, "code": code,
+                               "explain": explain(view(h, rec), rec)[:600] if len(mismatches) < 3 and rec else ""})
     return {
-        "corr_name": "Trim.content_text / content_gfx / rows (model) == real UrwidImage.render(size).content(...), UrwidImage.rows",
+        "corr_name": "Trim.content_text / content_gfx / rows (model, run on the data captured when each canvas was built) == real "
+                     "UrwidImage.render(size).content(...) over render/request histories, UrwidImage.rows",
         "evaluations": hist["trims"],
         "distinct_nontrivial": len(distinct),
-        "rule": "canvases: corpus (9 alignments of a 4x2-cell image in 8x4, unpadded, uniform, opaque background, kitty work-around, "
+        "rule": "HISTORIES: single render-then-request cases plus (quick ~40%, thorough ~50%) histories of 2-3 renders of one widget — or "
+                "of two widgets sharing one image object, one upscaling — at different box / flow sizes with the requests made on "
+                "EARLIER canvases after later renders and interleaved (A, B, trim A, trim B, render C, trim A ...), urwid's canvas cache "
+                "cleared before each render or left on (30%; a cache hit is recognised by object identity); every request is compared "
+                "with the model and the crop specification evaluated on the lines / image size / untrimmed rows captured when that "
+                "canvas was built; the untrimmed content() is re-read at every request step and must not change.  "
+                "canvases: corpus (9 alignments of a 4x2-cell image in 8x4, unpadded, uniform, opaque background, kitty work-around, "
                 "flow with and without upscale, 1-cell image, 1-column / 1-row canvases, kitty / iterm2 LINES and WHOLE with disguise) + "
                 "random (Block 70%: images 1..8 x 1..12 px with run structure — runs, single-pixel changes, alpha flips, pixels equal "
                 "to the terminal background —, modes RGB/RGBA/LA/P, alpha '', '#', '#.5', '#.0', '#rrggbb', '##', kitty work-around; "
@@ -396,7 +608,7 @@ def run(ctx):
                 "60 random sub-rectangles of larger canvases (up to 30x15).  evaluations = content() calls compared.  Non-trivial: "
                 "text canvas, a horizontal cut strictly inside the image on a visible image line; graphics: vertical trim of a "
                 "multi-line image; distinct by (canvas, sub-rectangle).",
-        "samples": [describe(c, r[2]) for c, r in list(zip(cases, res))[:2] + list(zip(cases, res))[20:24]],
+        "samples": [describe_history(h, e[2]) for h, e in list(zip(hs, res))[:1] + list(zip(hs, res))[21:24] + list(zip(hs, res))[-2:]],
         "histogram": hist,
         "mismatches": mismatches,
         "failures": failures,
@@ -407,6 +619,8 @@ def run(ctx):
             "the image fits in the canvas (set_size / _valid_size, C04)",
             "_valid_size is a function of the image and the terminal only (same answer in rows() and render())",
             "terminal conventions of lib/Term.v (SGR direct colour, NUL ignored)",
+            "a canvas is a snapshot: content() is a function of what was stored at construction (lines, canvas size, image size) and "
+            "of the widget's immutable alignment; only the disguise suffix of graphics rows follows live (widget / class) state",
         ],
         "trusted": ["harness/lexer.py", "harness/impl/impl_c17.py (row bytes joined, disguise pairs counted)"],
     }
